@@ -238,6 +238,20 @@ fn write_entry(
         low_res_scale,
     } = entry.specs;
 
+    if !file_format.version.is_old_header() {
+        // these are 16-bit fields in this version of the format
+        let fields_16 = [
+            ("rt_width", rt_width), ("rt_height", rt_height), ("rt_format", rt_format),
+            ("offset_x", offset_x), ("offset_y", offset_y),
+            ("number of sprites", entry.sprites.len() as u32), ("number of scripts", entry.scripts.len() as u32),
+        ];
+        for (name, value) in fields_16 {
+            if value > u16::MAX as u32 {
+                return Err(emitter.emit(error!("{name} {value} does not fit in the entry header of this format (max {})", u16::MAX)));
+            }
+        }
+    }
+
     file_format.write_header(w, &EntryHeaderData {
         rt_width, rt_height, rt_format, colorkey,
         offset_x, offset_y,
